@@ -128,6 +128,7 @@ func (bsp *batchSpanProcessor) OnStart(parent context.Context, s ReadWriteSpan) 
 func (bsp *batchSpanProcessor) OnEnd(s ReadOnlySpan) {
 	// Do not enqueue spans after Shutdown.
 	if bsp.stopped.Load() {
+		verifPoint("bsp.onend.ignored", s)
 		return
 	}
 
@@ -135,6 +136,7 @@ func (bsp *batchSpanProcessor) OnEnd(s ReadOnlySpan) {
 	if bsp.e == nil {
 		return
 	}
+	verifPoint("bsp.onend.checked", s)
 	bsp.enqueue(s)
 }
 
@@ -144,9 +146,11 @@ func (bsp *batchSpanProcessor) Shutdown(ctx context.Context) error {
 	var err error
 	bsp.stopOnce.Do(func() {
 		bsp.stopped.Store(true)
+		verifPoint("bsp.sd.stopped", ctx)
 		wait := make(chan struct{})
 		go func() {
 			close(bsp.stopCh)
+			verifPoint("bsp.sd.closed", ctx)
 			bsp.stopWait.Wait()
 			if bsp.e != nil {
 				if err := bsp.e.Shutdown(ctx); err != nil {
@@ -183,19 +187,24 @@ func (bsp *batchSpanProcessor) ForceFlush(ctx context.Context) error {
 
 	// Do nothing after Shutdown.
 	if bsp.stopped.Load() {
+		verifPoint("bsp.ff.stopped", ctx)
 		return nil
 	}
+	verifPoint("bsp.ff.checked", ctx)
 
 	var err error
 	if bsp.e != nil {
 		flushCh := make(chan struct{})
 		if bsp.enqueueBlockOnQueueFull(ctx, forceFlushSpan{flushed: flushCh}) {
+			verifPoint("bsp.ff.marker", ctx)
 			select {
 			case <-bsp.stopCh:
 				// The batchSpanProcessor is Shutdown.
+				verifPoint("bsp.ff.stopch", ctx)
 				return nil
 			case <-flushCh:
 				// Processed any items in queue prior to ForceFlush being called
+				verifPoint("bsp.ff.flushed", ctx)
 			case <-ctx.Done():
 				return ctx.Err()
 			}
@@ -310,10 +319,12 @@ func (bsp *batchSpanProcessor) processQueue() {
 				close(ffs.flushed)
 				continue
 			}
+			verifPoint("bsp.worker.dequeued", sd)
 			bsp.batchMutex.Lock()
 			bsp.batch = append(bsp.batch, sd)
 			shouldExport := len(bsp.batch) >= bsp.o.MaxExportBatchSize
 			bsp.batchMutex.Unlock()
+			verifPoint("bsp.worker.appended", sd)
 			if shouldExport {
 				if !bsp.timer.Stop() {
 					// Handle both GODEBUG=asynctimerchan=[0|1] properly.
@@ -343,6 +354,7 @@ func (bsp *batchSpanProcessor) drainQueue() {
 				continue
 			}
 
+			verifPoint("bsp.drain.dequeued", sd)
 			bsp.batchMutex.Lock()
 			bsp.batch = append(bsp.batch, sd)
 			shouldExport := len(bsp.batch) == bsp.o.MaxExportBatchSize
@@ -355,6 +367,7 @@ func (bsp *batchSpanProcessor) drainQueue() {
 			}
 		default:
 			// There are no more enqueued spans. Make final export.
+			verifPoint("bsp.drain.empty")
 			if err := bsp.exportSpans(ctx); err != nil {
 				otel.Handle(err)
 			}
@@ -379,6 +392,7 @@ func (bsp *batchSpanProcessor) enqueueBlockOnQueueFull(ctx context.Context, sd R
 
 	select {
 	case bsp.queue <- sd:
+		verifPoint("bsp.enq.sent", sd)
 		return true
 	case <-ctx.Done():
 		return false
@@ -392,9 +406,11 @@ func (bsp *batchSpanProcessor) enqueueDrop(_ context.Context, sd ReadOnlySpan) b
 
 	select {
 	case bsp.queue <- sd:
+		verifPoint("bsp.enq.sent", sd)
 		return true
 	default:
 		atomic.AddUint32(&bsp.dropped, 1)
+		verifPoint("bsp.enq.dropped", bsp, sd)
 	}
 	return false
 }
